@@ -1,5 +1,35 @@
-(* Builder_Proofs.v - the in-memory phase of the segment builder computes
-   exactly what the specification says. *)
+(* Builder_Proofs.v - the in-memory phase of the segment builder
+   (theories/Builder.v, the model of new.go) computes exactly what the
+   specification says.
+
+   Main results, for an arbitrary norm function and an arbitrary order of Go's
+   map iteration ([perm], any function returning a permutation of its input):
+     define_fields_spec     (a) the field numbering is Spec.field_list
+     dict_lookup_defined        "pid := dict[term]-1" always finds the term
+     rollup_perm            (c1) the per-(document, field) roll-up is Spec.roll_up
+                                 up to the order of the entries
+     windows_disjoint       (b) every single append of processDocuments stays
+                                inside the window prepareDicts carved for its
+                                postings list: no overlap, no reallocation
+                                (no validity of the batch needed)
+     convert_ideal              the model proper = the ideal model whose slices
+                                are private lists (relation Sim)
+     build_windows          (c2)-(c4) contents of Postings[pid] and of the two
+                                windows of pid (no validity needed)
+     R_build_postings       (c) for a valid batch the model delivers, for all
+                                fields in field-list order and all terms in
+                                sorted order, map to_eposting (o_postings ...)
+     build_perm_independent     hence the result does not depend on perm
+     build_model_example    (d) a worked example, two iteration orders
+
+   Structure of the argument: processDocuments is parametric in the
+   implementation of the two slice families (Section Rel): the model proper
+   (Arr, arr_append), the ideal model (list of lists) and a recording of the
+   appends are related step by step.  The ideal model is characterised by an
+   invariant over the documents (BInv); its log lengths are bounded by the
+   counters of prepareDicts (invariant PI of the counting pass); Sim_run then
+   shows that replaying the recorded appends on the carved backing array never
+   leaves a window. *)
 From Coq Require Import List NArith Bool Lia Arith Sorting Permutation.
 From Ice Require Import Base Spec Postings Builder.
 From IceProofs Require Import Sort_Proofs Build_Proofs.
@@ -1913,14 +1943,6 @@ Section Batch2.
       rewrite FL0_fields. exact (doc_evs_closed n d _ _ Hc Htfs ev l Hev Hl).
   Qed.
 
-  Lemma number_from_app {A} (l1 l2 : list A) (i : N) :
-    number_from i (l1 ++ l2) = number_from i l1 ++ number_from (i + lenN l1) l2.
-  Proof.
-    revert i. induction l1 as [|x l1 IH]; intros i; cbn [number_from app].
-    - f_equal. unfold lenN. cbn [length]. lia.
-    - rewrite IH. do 3 f_equal. unfold lenN. cbn [length]. lia.
-  Qed.
-
   Lemma batch_steps rest : forall i done (st : IdealSt),
     (forall d, In d rest -> In d b) -> BInv done st ->
     Forall (fun nd : N * Doc => fst nd < i) done ->
@@ -2096,6 +2118,39 @@ Section Final.
   Qed.
 End Final.
 
+
+(* the same in plain words: after any number of appends every FreqNorms[pid]
+   and every Locs[pid] is still a slice of the shared backing array, starting
+   at the start of its own window, no longer than the window; the windows
+   [off_of c pid, off_of c pid + c[pid]) are pairwise disjoint (windows_ordered)
+   and lie inside the backing array *)
+Corollary no_detach norm (perm : N -> nat -> TFs -> TFs) (b : Batch) :
+  (forall n q l, Permutation (perm n q l) l) ->
+  let T := run_trace norm perm
+             (mkInterim (i_flds (initial b)) (repeat [] (p_pidNext (prepared b))) [] []) b in
+  let nT := p_numTerms (prepared b) in
+  let nL := p_numLocs (prepared b) in
+  (forall tr1 tr2 pid, i_fn T = tr1 ++ tr2 -> (pid < length nT)%nat ->
+     exists len,
+       nth pid (slices (arr_run (arr_make (p_totTFs (prepared b)) nT) tr1)) (Detached [])
+         = Win (off_of nT pid) len /\
+       (len <= nth pid nT O)%nat /\
+       (off_of nT pid + nth pid nT O
+          <= length (backing (arr_run (arr_make (p_totTFs (prepared b)) nT) tr1)))%nat) /\
+  (forall tr1 tr2 pid, i_locs T = tr1 ++ tr2 -> (pid < length nL)%nat ->
+     exists len,
+       nth pid (slices (arr_run (arr_make (p_totLocs (prepared b)) nL) tr1)) (Detached [])
+         = Win (off_of nL pid) len /\
+       (len <= nth pid nL O)%nat /\
+       (off_of nL pid + nth pid nL O
+          <= length (backing (arr_run (arr_make (p_totLocs (prepared b)) nL) tr1)))%nat).
+Proof.
+  intros Hperm T nT nL.
+  destruct (windows_disjoint norm perm Hperm b) as [_ [_ [W1 W2]]].
+  split; intros tr1 tr2 pid E Hp.
+  - exact (Sim_windows _ _ _ pid (W1 tr1 tr2 E) Hp).
+  - exact (Sim_windows _ _ _ pid (W2 tr1 tr2 E) Hp).
+Qed.
 
 (* ------------------------------------------------------------------ *)
 (* (c) R-build for postings                                            *)
@@ -2289,6 +2344,24 @@ Section RBuild.
     exact (term_postings_spec q t pid Hv Hq Hp).
   Qed.
 End RBuild.
+
+(* the same, read field by field: the entry of field f lists the terms of f in
+   order, each with the postings the batch implies *)
+Corollary R_build_postings_field norm (perm : N -> nat -> TFs -> TFs) (b : Batch) (f : bytes) :
+  (forall n q l, Permutation (perm n q l) l) ->
+  valid_batch b = true -> In f (define_fields b) ->
+  find (fun e => beq (fst e) f) (build_postings_model norm perm b) =
+  Some (f, map (fun t => (t, map (to_eposting (define_fields b))
+                                 (o_postings (abs_of_batch norm b) f t)))
+               (o_terms (abs_of_batch norm b) f)).
+Proof.
+  intros Hperm Hv Hin. rewrite (R_build_postings norm perm Hperm b Hv).
+  rewrite (find_map_pair
+             (fun f => map (fun t => (t, map (to_eposting (define_fields b))
+                                             (o_postings (abs_of_batch norm b) f t)))
+                           (o_terms (abs_of_batch norm b) f))).
+  apply (mem_In beq beq_eq) in Hin. rewrite Hin. reflexivity.
+Qed.
 
 (* the result does not depend on the order in which Go iterates over the
    per-document term maps *)
